@@ -170,7 +170,7 @@ FxIsLoopStartEnergy == [][s'.pc = "extra" => s'.fx = s.fval]_s
 (* the extrapolation step either keeps the direction set or discards exactly the direction of largest decrease:
    direc[bigind] := direc[N]; direc[N] := the new direction -- every other direction stays where it was *)
 ReplacementDiscardsLargest ==
-  [][s.pc = "extra" =>
+  [][s.pc = "extra" /\ s'.pc = "loop" =>
        IF s'.rep = "replaced"
        THEN LET N == Len(s.direc) IN
             /\ Len(s'.direc) = N
@@ -178,7 +178,7 @@ ReplacementDiscardsLargest ==
             /\ \A i \in 1..N : s'.direc[N] # s.direc[i]
             /\ {s'.direc[i] : i \in 1..(N - 1)} = {s.direc[i] : i \in 1..N} \ {s.direc[s.bigind + 1]}
        ELSE s'.direc = s.direc]_s
-X1IsWhereTheLoopStarted == [][s.pc = "extra" => s'.x1 = s.x]_s
+X1IsWhereTheLoopStarted == [][s.pc = "extra" /\ s'.pc = "loop" => s'.x1 = s.x]_s
 LoopKeepsDirections == [][s.pc = "loop" => s'.direc = s.direc /\ s'.x1 = s.x1]_s
 CountersAdvance == [][/\ s'.evals > s.evals
                       /\ s'.iters = s.iters + (IF s.pc = "loop" THEN 1 ELSE 0)]_s
